@@ -146,8 +146,8 @@ func runC19(r *Run) {
 	if !h.openConns(1) {
 		return
 	}
-	if !c06Commits(r, h, t, t.Range(1, 3), nil) {
-		return
+	if !c06Commits(r, h, t, t.Range(1, 3), nil) || h.ref.N() == 0 || p.Store.DB(dbName) == nil || p.Store.DB(dbName).Pos().TXID == 0 {
+		return // (every drawn program rolled back: nothing to track)
 	}
 	if err := rep.Open(); err != nil {
 		r.Inconclusive("replica: %v", err)
@@ -345,7 +345,11 @@ func runC19(r *Run) {
 					return
 				}
 				if noPrimary {
-					r.Check(code == http.StatusServiceUnavailable, "c19.write-no-primary", "%s: want 503 without a known primary", desc)
+					// (the replica may have learned of a primary again while the proxy was waiting)
+					r.Check(code == http.StatusServiceUnavailable || w.hdr.Get("fly-replay") != "", "c19.write-no-primary", "%s: want 503 without a known primary (or a redirect if one turned up)", desc)
+					if code == http.StatusServiceUnavailable {
+						r.Count("c19.write.no-primary-503")
+					}
 				} else {
 					fr := w.hdr.Get("fly-replay")
 					_, info := rep.Store.PrimaryInfo()
